@@ -60,7 +60,7 @@ func c15cells() []c15cell {
 		for _, ck := range []string{"deadline", "cancel"} {
 			cells = append(cells, c15cell{op, tr, peer, ck, "during"})
 		}
-		if tr == "tcp" || tr == "faulttcp" {
+		if tr == "tcp" || tr == "faulttcp" || op == "Transport.Send" || op == "SendMessage" || op == "Transport.Receive" {
 			// a context that has a distant deadline AND is cancelled early
 			cells = append(cells, c15cell{op, tr, peer, "cancel-far-deadline", "during"})
 		}
@@ -80,6 +80,9 @@ func c15cells() []c15cell {
 		add("ServerChannel.EstablishSession", tr, "silent", false)
 		add("ServerChannel.FinishSession", tr, "silent", false)
 		add("ServerChannel.FinishSession", tr, "notreading", false)
+		// the peer has sent more unsolicited responses than the channel buffers and nobody consumes them: the
+		// channel's receiver is parked on the full stream when the session is finished
+		add("ServerChannel.FinishSession", tr, "respflood", false)
 	}
 	for _, tr := range []string{"tcp", rig.WS, rig.InProc} {
 		add("Listener.Accept", tr, "silent", true)
@@ -609,7 +612,18 @@ func c15measure(cell c15cell) c15outcome {
 			return out
 		}
 		env.cleanup = append(env.cleanup, func() { go func() { _ = sc.Close() }() })
-		if cell.Peer == "silent" {
+		if cell.Peer == "respflood" {
+			env.keepReading(stopRead)
+			go func() {
+				// (over the in-process transport the peer's own sends block once the pipe is full)
+				for i := 0; i < 24; i++ {
+					if env.peerSend(map[string]interface{}{"id": fmt.Sprintf("unsolicited-%d", i), "method": "get", "status": "success"}) != nil {
+						return
+					}
+				}
+			}()
+			time.Sleep(100 * time.Millisecond)
+		} else if cell.Peer == "silent" {
 			env.keepReading(stopRead)
 		} else if cell.Transport == "tcp" || cell.Transport == rig.WS {
 			// fill the socket buffers first: the peer is not reading
